@@ -123,6 +123,17 @@ def run(prog):
             if len(non_ins) > 1:
                 out.append(inst("WP", "%s:consistency" % (fn.npath,), VIOLATION, fn, None,
                                 "reads keyed by one literal use both its own and the opposite table"))
+    # WP2: a newly assigned literal changes the residual formula in exactly two ways — it satisfies the clauses
+    # that contain it (own-polarity table) and shrinks the clauses that contain its negation (opposite table);
+    # update_hash_and_sat_set must consult one table of each kind
+    for fn in prog.find(name="update_hash_and_sat_set", self_adt="repr::unit_prop::SATSolver", unit="rsdd-lib"):
+        sides = sorted(r["detail"].split("-side")[0] for r in out
+                       if r["key"].startswith("WP:" + fn.npath + ":") and r["verdict"] == OK and "-side" in r["detail"])
+        ok = sides == ["opposite", "same"]
+        out.append(inst("WP", "%s:both-sides" % fn.npath, OK if ok else VIOLATION, fn, None,
+                        "satisfied clauses come from the own-polarity table, shrunk clauses from the opposite one" if ok else
+                        "the residual hash consults the tables %s: the clauses satisfied by a new literal (its own polarity) "
+                        "and the clauses it shrinks (opposite polarity) are both needed, one pass over each" % sides))
     if n < 20:
         raise CheckerError("WP: only %d polar table accesses recognised (expected >= 20)" % n)
     return out
